@@ -24,12 +24,18 @@ def mk_dag(nodes, tasks, edges, prio, cache):
             if v not in cache:
                 marks = []
                 p = prio.get(str(v), 0)
+                # priority marks may carry arguments (`@pytask.mark.try_first("reason")`, `try_last(reason=…)`): legal, same meaning
+                form = (v * 7 + len(nodes)) % 3
+                args = ("why",) if form == 1 else ()
+                kwargs = {"reason": "because"} if form == 2 else {}
                 if p == 1:
-                    marks.append(Mark("try_first", (), {}))
+                    marks.append(Mark("try_first", args, kwargs))
                 elif p == -1:
-                    marks.append(Mark("try_last", (), {}))
+                    marks.append(Mark("try_last", args, kwargs))
                 elif p == 2:  # both marks (must be rejected somewhere)
-                    marks += [Mark("try_first", (), {}), Mark("try_last", (), {})]
+                    marks += [Mark("try_first", args, kwargs), Mark("try_last", (), {})]
+                if form == 1:
+                    marks.insert(0, Mark("somethingelse", (), {}))   # unrelated marks do not matter
                 cache[v] = TaskWithoutPath(name=f"task_{v}", function=lambda: None, markers=marks)
             t = cache[v]
             sig[v] = t.signature
